@@ -97,7 +97,8 @@ def xor2v(*vs): return (_fold(xor2, [v[0] for v in vs]),)
 
 def code_of(v):
     """concrete: triple/pair of bools -> integer code 0..7"""
-    f, i = bool(v[0]), bool(v[1])
+    f = bool(v[0])
+    i = bool(v[1]) if len(v) > 1 else f
     a = bool(v[2]) if len(v) > 2 else False
     return int(f) | (int(i) << 1) | (int(a) << 2)
 
